@@ -880,14 +880,17 @@ fn exec_op(
             Res::U
         }
         K::StopExploring => {
+            note(30, loom::verif::path_pos() as u64, 0);
             loom::stop_exploring();
             Res::U
         }
         K::Explore => {
+            note(31, loom::verif::path_pos() as u64, 0);
             loom::explore();
             Res::U
         }
         K::SkipBranch => {
+            note(32, loom::verif::path_pos() as u64, 0);
             loom::skip_branch();
             Res::U
         }
